@@ -465,3 +465,23 @@ Definition proper (d : descr) : bool :=
                  match d_elt d with Some e => str_eqb (value_of_name e) e | None => true end
   | _ => false
   end.
+
+(* the canonical name of a description: None for the integer 0 and for ARRAY without an
+   element type (what the deprecated alias LIST yields), which no well-formed name denotes *)
+Definition name_of (d : descr) : option tname :=
+  match d_ty d with
+  | TMember m =>
+      if str_eqb m ty_decimal then
+        match d_prec d, d_scale d with Some p, Some s => Some (NDecimal p s) | _, _ => Some (NBase m) end
+      else if str_eqb m ty_varchar then
+        match d_len d with Some n => Some (NVarchar n) | None => Some (NBase m) end
+      else if str_eqb m ty_blob then
+        match d_len d with Some n => Some (NBlob n) | None => Some (NBase m) end
+      else if str_eqb m ty_array then
+        match d_elt d with Some e => Some (NArray e) | None => None end
+      else Some (NBase m)
+  | _ => None
+  end.
+
+(* an ASCII digit 0-9 (used to state the spelling theorems) *)
+Definition ascii_digit (c : N) : Prop := 48 <= c <= 57.
